@@ -568,6 +568,13 @@ class PStruct(Node):
         self.ty, self.ps = ty, list(ps)  # positional, all fields
 
 
+class PStructRest(Node):
+    """struct pattern naming only some fields, followed by `..`"""
+
+    def __init__(self, ty, fields):
+        self.ty, self.fields = ty, list(fields)  # [(fname, pattern)]
+
+
 class PEnum(Node):
     def __init__(self, ty, variant, p=None):
         self.ty, self.variant, self.p = ty, variant, p
@@ -613,6 +620,8 @@ def pat_sway(p):
         return '(' + ', '.join(pat_sway(x) for x in p.ps) + (',)' if len(p.ps) == 1 else ')')
     if isinstance(p, PStruct):
         return p.ty.name + ' { ' + ', '.join(f'{f}: {pat_sway(x)}' for (f, _), x in zip(p.ty.fields, p.ps)) + ' }'
+    if isinstance(p, PStructRest):
+        return p.ty.name + ' { ' + ''.join(f'{f}: {pat_sway(x)}, ' for f, x in p.fields) + '.. }'
     if isinstance(p, PEnum):
         vt = dict(p.ty.variants)[p.variant]
         if isinstance(vt, Unit):
@@ -836,6 +845,10 @@ def bind_pattern_types(p, t, fr):
     elif isinstance(p, PStruct):
         for x, (_, tt) in zip(p.ps, t.fields):
             bind_pattern_types(x, tt, fr)
+    elif isinstance(p, PStructRest):
+        ft = dict(t.fields)
+        for f, x in p.fields:
+            bind_pattern_types(x, ft[f], fr)
     elif isinstance(p, PEnum):
         if p.p is not None:
             bind_pattern_types(p.p, dict(t.variants)[p.variant], fr)
@@ -855,11 +868,30 @@ def pattern_matches(p, v, t, binds):
             return v if p.value else z3.Not(v)
         return v == z3.BitVecVal(p.value, t.w if isinstance(t, UInt) else 256)
     if isinstance(p, POr):
-        return z3.Or(*[pattern_matches(x, v, t, {}) for x in p.ps])
+        # variables are bound from the first alternative that matches
+        conds, alts = [], []
+        for x in p.ps:
+            b = {}
+            conds.append(pattern_matches(x, v, t, b))
+            alts.append(b)
+        names = set().union(*[set(b.keys()) for b in alts]) if alts else set()
+        for n in names:
+            val, ty_ = None, None
+            for c, b in reversed(list(zip(conds, alts))):
+                if n in b:
+                    bv_, bt = b[n]
+                    val = bv_ if val is None else ite_value(c, bv_, val, bt)
+                    ty_ = bt
+            binds[n] = (val, ty_)
+        return z3.Or(*conds)
     if isinstance(p, PTuple):
         return z3.And(*[pattern_matches(x, vv, tt, binds) for x, vv, tt in zip(p.ps, v, t.ts)])
     if isinstance(p, PStruct):
         return z3.And(*[pattern_matches(x, vv, tt, binds) for x, vv, (_, tt) in zip(p.ps, v, t.fields)])
+    if isinstance(p, PStructRest):
+        names = [f for f, _ in t.fields]
+        cs = [pattern_matches(x, v[names.index(f)], t.fields[names.index(f)][1], binds) for f, x in p.fields]
+        return z3.And(*cs) if cs else z3.BoolVal(True)
     if isinstance(p, PEnum):
         names = [n for n, _ in t.variants]
         i = names.index(p.variant)
